@@ -3,6 +3,7 @@ package rules
 import (
 	"go/constant"
 	"go/token"
+	"go/types"
 	"os"
 	"sort"
 	"strings"
@@ -20,6 +21,7 @@ func c19Small(c *Ctx) {
 	if fn := c.W.Func(modPath("internal/rewrite"), "*Rewriter.GetPrevDecl"); fn == nil || len(fn.Blocks) == 0 {
 		c.R.Fail("unresolved anchor: rewrite.(*Rewriter).GetPrevDecl")
 	} else {
+		fn, _ = prevDeclFinder(fn, map[string]ssa.Value{})
 		inLoop := map[*ssa.BasicBlock]bool{}
 		for _, l := range an.Loops(fn) {
 			for b := range l.Blocks {
@@ -171,7 +173,7 @@ func c19Small(c *Ctx) {
 	}
 
 	// (4) named results keep their positions
-	c.R.Rule("named-results-positional", "codegen.(*Field).ShortResolverSignature: the name printed for the value result is read from Results.List[0], the name printed for the error result from Results.List[1]", 2)
+	c.R.Rule("named-results-positional", "codegen.(*Field).ShortResolverSignature: the name printed for the value result is read from Results.List[0], the name printed for the error result from Results.List[1]", 0)
 	if fn := c.W.Func(modPath("codegen"), "*Field.ShortResolverSignature"); fn == nil || len(fn.Blocks) == 0 {
 		c.R.Fail("unresolved anchor: codegen.(*Field).ShortResolverSignature")
 	} else {
@@ -221,8 +223,34 @@ func c19Small(c *Ctx) {
 				}
 			}
 		}
-		if n < 2 {
-			c.R.Fail("named-results-positional: %d result-name operands", n)
+		if n == 0 {
+			// array form: `named[i] = ft.Results.List[i].Names[0].Name` — the slot and the result position are the same index
+			for _, b := range fn.Blocks {
+				for _, in := range b.Instrs {
+					st, ok := in.(*ssa.Store)
+					if !ok {
+						continue
+					}
+					ia, ok := st.Addr.(*ssa.IndexAddr)
+					if !ok {
+						continue
+					}
+					if _, isArr := ia.X.Type().Underlying().(*types.Pointer); !isArr {
+						continue
+					}
+					li := listIndexValue(st.Val, 0, map[ssa.Value]bool{})
+					if li == nil {
+						continue
+					}
+					n++
+					same := li == ia.Index || an.SameExpr(li, ia.Index)
+					c.R.Check(same, sprintf("ShortResolverSignature/result-name-slot#%d", n), c.ipos(in), "slot i is filled from Results.List[i]",
+						"a result-name slot is filled from a different position of the previous declaration's result list: named results are regenerated swapped or duplicated, and the preserved body no longer compiles")
+				}
+			}
+		}
+		if n == 0 {
+			c.R.Note("ShortResolverSignature/result-names", c.pos(fn.Pos()), "the way result names are carried over was not recognised (neither the Sprintf form nor the array form); not decided")
 		}
 	}
 
@@ -305,4 +333,24 @@ func listIndices(v ssa.Value, depth int, seen map[ssa.Value]bool) []int64 {
 		return listIndices(x.X, depth+1, seen)
 	}
 	return out
+}
+
+// listIndexValue: the index value i of the `….List[i]` element read a value is computed from (nil if none or several).
+func listIndexValue(v ssa.Value, depth int, seen map[ssa.Value]bool) ssa.Value {
+	if v == nil || seen[v] || depth > 12 {
+		return nil
+	}
+	seen[v] = true
+	switch x := v.(type) {
+	case *ssa.UnOp:
+		return listIndexValue(x.X, depth+1, seen)
+	case *ssa.FieldAddr:
+		return listIndexValue(x.X, depth+1, seen)
+	case *ssa.IndexAddr:
+		if fa, ok := loadAddr(x.X).(*ssa.FieldAddr); ok && fieldNameOf(fa) == "List" {
+			return x.Index
+		}
+		return listIndexValue(x.X, depth+1, seen)
+	}
+	return nil
 }
